@@ -222,6 +222,10 @@ func Run(r *fw.Run) {
 	r.Rule = "every list of 1..2 paths over the full pool and 3 paths over the full pool (thorough: also reversed order and 4 paths over the 22-path pool) x mode variants x root go.mod variants x 4 valid and 5 invalid module/version pairs x declared-size variants: zip.Create, then (when it succeeds) CheckZip, an independent validation of the entry names, Unzip into a fresh tmpfs directory and an independent walk compared with CheckFiles.Valid; Create succeeds iff CheckFiles reports no error (honest sizes, valid module version). non-trivial = Create succeeded and the archive was extracted"
 	r.Assume = []string{"Linux tmpfs; 500 MiB limits exercised through declared sizes in C17, not through content"}
 	var lists [][]string
+	// byte sweep over names: alone and next to a fixed neighbour
+	for _, n := range zipx.SweepNames() {
+		lists = append(lists, []string{n}, []string{"N", n})
+	}
 	for i, a := range pool2 {
 		lists = append(lists, []string{a})
 		for j := i; j < len(pool2); j++ {
